@@ -127,6 +127,23 @@ def cut_by_plan(data, plan, maxlen, boundaries=()):
     return out
 
 
+def shell_payloads(dspec, key):
+    """Ground truth for a shell/exec command: the payload list the device writes."""
+    c = dspec.get('cmds', {}).get(key)
+    if c is None or c.get('hang'):
+        return []
+    data = expand(c['content'])
+    pieces = cut(data, c.get('cuts', [])) if (c.get('cuts') is not None) else [data]
+    limit = min(int(dspec.get('maxdata', 4096)), W.HOST_MAXDATA)
+    final = []
+    for p in pieces:
+        if len(p) <= limit:
+            final.append(p)
+        else:
+            final += [p[i:i + limit] for i in range(0, len(p), limit)]
+    return final
+
+
 # ----------------------------------------------------------------------------------------
 class Pkt(object):
     __slots__ = ('cmd', 'arg0', 'arg1', 'data', 'ready', 'sid', 'seq', 'kind', 'raw', 'note')
@@ -392,7 +409,7 @@ class Device(object):
         if not a:
             self.c04.append('AUTH from host without a challenge')
             return
-        keys = self.spec.get('pubkeys', [])
+        keys = getattr(self, 'pubkeys', [])
         if arg0 == W.AUTH_SIGNATURE:
             last_arg0, last_tok = self.sess['challenges'][-1]
             # which fixture keys verify this signature over the most recent token?
@@ -751,15 +768,7 @@ class ShellService(object):
         self.s.cmd_key = key
         if c.get('hang'):
             return    # never answers, never closes
-        data = dev.content(c['content'])
-        pieces = cut(data, c.get('cuts', [])) if (c.get('cuts') is not None) else [data]
-        limit = min(dev.maxdata, W.HOST_MAXDATA)
-        final = []
-        for p in pieces:
-            if len(p) <= limit:
-                final.append(p)
-            else:
-                final += [p[i:i + limit] for i in range(0, len(p), limit)]
+        final = shell_payloads(dev.spec, key)
         self.s.expected_payloads = final
         think = c.get('think')
         for i, p in enumerate(final):
